@@ -8,7 +8,7 @@ from pyp0f.database.parse.utils import WILDCARD
 from pyp0f.database.records import TCPRecord
 from pyp0f.database.signatures import TCPSignature, WindowType
 from pyp0f.impersonate.utils import random_string, validate_for_impersonation
-from pyp0f.net.layers.ip import IPV6
+from pyp0f.net.layers.ip import IPV4, IPV6
 from pyp0f.net.layers.tcp import TCPFlag, TCPOption
 from pyp0f.net.packet import Direction
 from pyp0f.net.quirks import Quirk
@@ -311,11 +311,15 @@ def impersonate(
 
         signature = database.get_random(raw_label, TCPRecord, direction).signature
 
-    if signature.ip_version != WILDCARD and packet.version != signature.ip_version:
+    # The IP layer is not necessarily the first one (e.g. a sniffed Ethernet frame)
+    ip = packet[ScapyIPv4] if ScapyIPv4 in packet else packet[ScapyIPv6]
+    ip_version = IPV4 if ScapyIPv4 in packet else IPV6
+
+    if signature.ip_version != WILDCARD and ip_version != signature.ip_version:
         raise ValueError("Can't convert between IPv4 and IPv6")
 
     return (
-        _impersonate_ip(packet, signature, extra_hops)
+        _impersonate_ip(ip, signature, extra_hops)
         / _impersonate_tcp(tcp, signature, mtu, uptime)
         / _impersonate_payload(tcp, signature)
     )
